@@ -65,7 +65,7 @@ func Intervals(g graph.Directed, eid int64) IntervalGraph {
 
 	for worklist.Len() != 0 {
 		var interval Interval
-		map1, map2 := interval.findInterval(worklist.Dequeue(), g)
+		map1, map2 := interval.findInterval(worklist.Dequeue(), g, inInterval)
 		maps.Copy(inInterval, map1)
 		maps.Copy(node2interval, map2)
 
@@ -280,8 +280,9 @@ func (i *Interval) HasEdgeFromTo(uid, vid int64) bool {
 
 // findInterval finds all interval nodes.
 // Nodes are added to the interval if all their predecessors are in
-// the interval or they are the header node.
-func (i *Interval) findInterval(h graph.Node, g graph.Directed) (map[int64]graph.Node, map[int64]*Interval) {
+// the interval or they are the header node. Nodes in assigned already
+// belong to another interval and are not added.
+func (i *Interval) findInterval(h graph.Node, g graph.Directed, assigned map[int64]graph.Node) (map[int64]graph.Node, map[int64]*Interval) {
 	i.head = h
 	var nq linear.NodeQueue
 	nq.Enqueue(h)
@@ -295,7 +296,7 @@ func (i *Interval) findInterval(h graph.Node, g graph.Directed) (map[int64]graph
 		succs := g.From(node.ID())
 
 		for succs.Next() {
-			if i.nodes[succs.Node().ID()] != nil {
+			if i.nodes[succs.Node().ID()] != nil || assigned[succs.Node().ID()] != nil {
 				continue
 			}
 
